@@ -20,14 +20,17 @@ import (
 
 // c27Pre is a page inserted before the run. Odd == "" is the shape the library
 // itself creates (frame aligned to, and of, the table's page size); "unaligned"
-// shifts PAddr by Delta inside the frame; "size" gives it PageSize Size.
+// shifts PAddr by Delta inside the frame; "size" gives it PageSize Size (0 = the
+// field left unset, as in the repository's gmmu tests). Invalid inserts the
+// entry with Valid=false (it still names its frame).
 type c27Pre struct {
-	PID   uint32 `json:"pid"`
-	VPN   uint64 `json:"vpn"`
-	Frame uint64 `json:"frame"`
-	Odd   string `json:"odd,omitempty"`
-	Delta uint64 `json:"delta,omitempty"`
-	Size  uint64 `json:"size,omitempty"`
+	PID     uint32 `json:"pid"`
+	VPN     uint64 `json:"vpn"`
+	Frame   uint64 `json:"frame"`
+	Odd     string `json:"odd,omitempty"`
+	Delta   uint64 `json:"delta,omitempty"`
+	Size    uint64 `json:"size,omitempty"`
+	Invalid bool   `json:"invalid,omitempty"`
 }
 
 type c27Req struct {
@@ -51,7 +54,7 @@ type c27Case struct {
 
 func (c *c27Case) prePage(p c27Pre) vm.Page {
 	pg := vm.Page{PID: vm.PID(p.PID), VAddr: p.VPN << c.Log2, PAddr: p.Frame << c.Log2,
-		PageSize: 1 << c.Log2, Valid: true, DeviceID: 1, Unified: true}
+		PageSize: 1 << c.Log2, Valid: !p.Invalid, DeviceID: 1, Unified: true}
 	switch p.Odd {
 	case "unaligned":
 		pg.PAddr += p.Delta
@@ -63,8 +66,8 @@ func (c *c27Case) prePage(p c27Pre) vm.Page {
 
 func (c *c27Case) validate() error { return c.validateWith(false) }
 
-// validateWith(loose=true) additionally admits pre-inserted pages that share a
-// frame (the C03 domain).
+// validateWith(loose=true) is the C03 domain (Stall). Pre-inserted pages may
+// share a frame; requests never name a pre-inserted page that is not Valid.
 func (c *c27Case) validateWith(loose bool) error {
 	if c.Stall < 0 || (c.Stall != 0 && !loose) {
 		return fmt.Errorf("stall")
@@ -72,10 +75,10 @@ func (c *c27Case) validateWith(loose bool) error {
 	if c.Log2 < 12 || c.Log2 > 16 || c.Lat < 0 || c.Max < 1 || c.Buf < 1 || len(c.Reqs) == 0 {
 		return fmt.Errorf("params")
 	}
-	keys, frames := map[[2]uint64]bool{}, map[uint64]bool{}
+	keys, invalid := map[[2]uint64]bool{}, map[[2]uint64]bool{}
 	for _, p := range c.Pre {
 		k := [2]uint64{uint64(p.PID), p.VPN}
-		if p.PID == 0 || keys[k] || (frames[p.Frame] && !loose) || p.Frame >= 1<<30 || p.VPN >= 1<<(63-c.Log2) {
+		if p.PID == 0 || keys[k] || p.Frame >= 1<<30 || p.VPN >= 1<<(63-c.Log2) {
 			return fmt.Errorf("pre %+v", p)
 		}
 		switch p.Odd {
@@ -85,17 +88,20 @@ func (c *c27Case) validateWith(loose bool) error {
 				return fmt.Errorf("pre %+v", p)
 			}
 		case "size":
-			if p.Size == 0 || p.Size == 1<<c.Log2 || p.Size > 1<<20 {
+			if p.Size == 1<<c.Log2 || p.Size > 1<<20 {
 				return fmt.Errorf("pre %+v", p)
 			}
 		default:
 			return fmt.Errorf("pre %+v", p)
 		}
-		keys[k], frames[p.Frame] = true, true
+		keys[k], invalid[k] = true, p.Invalid
 	}
 	for _, r := range c.Reqs {
 		if r.PID == 0 || r.VPN >= 1<<(63-c.Log2) || r.Off >= 1<<c.Log2 || r.Gap < 0 {
 			return fmt.Errorf("req %+v", r)
+		}
+		if invalid[[2]uint64{uint64(r.PID), r.VPN}] {
+			return fmt.Errorf("req %+v names a pre-inserted page that is not Valid (behaviour undocumented)", r)
 		}
 	}
 	return nil
@@ -368,15 +374,26 @@ func judgeC27(c c27Case, eng *timing.SerialEngine, pt vm.PageTable, pre map[[2]u
 		}
 	}
 
-	// disjointness of every auto-allocated page from every other page
+	// disjointness of every auto-allocated page from every other page. The
+	// physical range of an entry is [PAddr, PAddr+PageSize); a pre-inserted entry
+	// whose PageSize field is smaller than the table's page size (or unset) is
+	// held to the whole frame at its PAddr, under its own signature.
 	type tp struct {
-		page vm.Page
-		auto bool
-		odd  bool
+		page  vm.Page
+		auto  bool
+		odd   bool // unaligned or larger than the table's page: overlap only labelled
+		under bool // aligned, PageSize field < table page size
 	}
 	var all []tp
 	for _, p := range c.Pre {
-		all = append(all, tp{page: c.prePage(p), odd: p.Odd != ""})
+		t := tp{page: c.prePage(p)}
+		switch {
+		case p.Odd == "size" && p.Size < psz:
+			t.under = true
+		case p.Odd != "":
+			t.odd = true
+		}
+		all = append(all, t)
 	}
 	for _, pi := range order {
 		if pi.auto {
@@ -389,7 +406,11 @@ func judgeC27(c c27Case, eng *timing.SerialEngine, pt vm.PageTable, pre map[[2]u
 			continue
 		}
 		for j := range all {
-			if i == j || (all[j].auto && j < i) || !overlap(all[i].page, all[j].page) {
+			other := all[j].page
+			if all[j].under {
+				other.PageSize = psz
+			}
+			if i == j || (all[j].auto && j < i) || !overlap(all[i].page, other) {
 				continue
 			}
 			if all[j].odd {
@@ -397,11 +418,14 @@ func judgeC27(c c27Case, eng *timing.SerialEngine, pt vm.PageTable, pre map[[2]u
 				continue
 			}
 			kind := "pre-inserted"
-			if all[j].auto {
+			switch {
+			case all[j].auto:
 				kind = "auto-allocated"
+			case all[j].under:
+				kind = "pre-inserted-undersized"
 			}
 			return c27Result{Sig: "autoalloc-alias:" + kind, Msg: fmt.Sprintf(
-				"auto-allocated page %+v overlaps the physical range of the %s page %+v", all[i].page, kind, all[j].page)}
+				"auto-allocated page %+v overlaps the physical range of the %s page %+v (table page size %d)", all[i].page, kind, all[j].page, psz)}
 		}
 	}
 
@@ -416,12 +440,42 @@ func judgeC27(c c27Case, eng *timing.SerialEngine, pt vm.PageTable, pre map[[2]u
 			}
 		}
 	}
-	interleaved, hasOdd := false, false
-	for _, t := range all {
-		if !t.auto && !t.odd && nAuto > 0 && t.page.PAddr < maxAuto {
+	// every frame below the final cursor was a candidate of the allocator
+	// (reverse-looked-up and either handed out or stepped over)
+	cursor := m.State.NextPhysicalPage
+	probed := func(pg vm.Page) bool { return nAuto > 0 && pg.PAddr%psz == 0 && pg.PAddr < cursor }
+	interleaved, hasOdd, hasUnder, hasSizeless := false, false, false, false
+	hasInvalid, invalidProbed, sharedProbed, invalidFirstOfShared, underProbed := false, false, false, false, false
+	for i, t := range all {
+		if t.auto {
+			continue
+		}
+		if !t.odd && nAuto > 0 && t.page.PAddr < maxAuto {
 			interleaved = true // the cursor had to step over a pre-inserted frame
 		}
 		hasOdd = hasOdd || t.odd
+		hasUnder = hasUnder || t.under
+		hasSizeless = hasSizeless || t.page.PageSize == 0
+		underProbed = underProbed || (t.under && probed(t.page))
+		hasInvalid = hasInvalid || !t.page.Valid
+		invalidProbed = invalidProbed || (!t.page.Valid && probed(t.page))
+		for j, u := range all {
+			if u.auto || i == j || u.page.PAddr != t.page.PAddr || !probed(t.page) {
+				continue
+			}
+			sharedProbed = true
+			// t is what ReverseLookup reports for the frame (lowest PID) and is
+			// not Valid, while a Valid page of a higher PID lives there too
+			lowest := true
+			for _, w := range all {
+				if !w.auto && w.page.PAddr == t.page.PAddr && w.page.PID < t.page.PID {
+					lowest = false
+				}
+			}
+			if lowest && !t.page.Valid && u.page.Valid {
+				invalidFirstOfShared = true
+			}
+		}
 	}
 	procs := map[uint64]bool{}
 	for _, pi := range order {
@@ -438,6 +492,13 @@ func judgeC27(c c27Case, eng *timing.SerialEngine, pt vm.PageTable, pre map[[2]u
 	flag(concurrentNew, "concurrent-walks-of-new-page")
 	flag(hasOdd, "odd-pre-inserted(non-asserted)")
 	flag(oddOverlap, "odd-pre-inserted:overlap-observed(non-asserted)")
+	flag(hasUnder, "undersized-pre-inserted")
+	flag(hasSizeless, "sizeless-pre-inserted")
+	flag(underProbed, "undersized-pre-inserted-frame-probed-by-allocator")
+	flag(hasInvalid, "invalid-pre-inserted")
+	flag(invalidProbed, "invalid-pre-inserted-frame-probed-by-allocator")
+	flag(sharedProbed, "shared-pre-inserted-frame-probed-by-allocator")
+	flag(invalidFirstOfShared, "probed-frame-shared-by-invalid-lowest-pid-and-valid-page")
 	flag(len(procs) > 1, "several-processes")
 	flag(len(order) < len(d.rsps), "repeated-page")
 	res.Classes = cl
@@ -452,6 +513,7 @@ func genC27(rt *rapid.T) c27Case {
 		Max:  rapid.IntRange(1, 8).Draw(rt, "max"),
 		Buf:  rapid.IntRange(1, 4).Draw(rt, "buf"),
 	}
+	psz := uint64(1) << c.Log2
 	procs := rapid.IntRange(1, 3).Draw(rt, "procs")
 	vpnGen := rapid.OneOf(rapid.Uint64Range(0, 5), rapid.Uint64Range(0, 5), rapid.Uint64Range(0, 30),
 		rapid.Map(rapid.Uint64Range(0, 3), func(k uint64) uint64 { return uint64(1)<<(63-16) - 1 - k }))
@@ -461,34 +523,61 @@ func genC27(rt *rapid.T) c27Case {
 	if nPre > procs*len(vpns) {
 		nPre = procs * len(vpns)
 	}
-	// pre-inserted frames land in the range the cursor will sweep
-	frames := rapid.SliceOfNDistinct(rapid.Uint64Range(0, uint64(nPre+10)), nPre, nPre, rapid.ID[uint64]).Draw(rt, "frames")
 	slots := rapid.SliceOfNDistinct(rapid.IntRange(0, procs*len(vpns)-1), nPre, nPre, rapid.ID[int]).Draw(rt, "preslots")
+	// shape of the pre-inserted entries: 1 in 6 cases makes some unaligned or of
+	// another size, 1 in 6 leaves PageSize unset on some, half of the cases mark
+	// some as not Valid
 	odd := rapid.IntRange(0, 5).Draw(rt, "oddcase") == 0
-	for i, s := range slots {
-		p := c27Pre{PID: uint32(s%procs) + 1, VPN: vpns[s/procs], Frame: frames[i]}
-		if odd && rapid.Bool().Draw(rt, "odd") {
+	sizeless := rapid.IntRange(0, 5).Draw(rt, "sizelesscase") == 0
+	invalid := rapid.Bool().Draw(rt, "invalidcase")
+	isPre, isInvalid := map[int]bool{}, map[int]bool{}
+	for _, s := range slots {
+		p := c27Pre{PID: uint32(s%procs) + 1, VPN: vpns[s/procs]}
+		switch {
+		case odd && rapid.Bool().Draw(rt, "odd"):
 			if rapid.Bool().Draw(rt, "oddk") {
-				p.Odd, p.Delta = "unaligned", rapid.Uint64Range(1, 1<<c.Log2-1).Draw(rt, "delta")
+				p.Odd, p.Delta = "unaligned", rapid.Uint64Range(1, psz-1).Draw(rt, "delta")
 			} else {
 				p.Odd = "size"
-				p.Size = rapid.SampledFrom([]uint64{1 << 10, 1 << 12, 1 << 13, 1 << 14, 1 << 16, 1 << 18}).
-					Filter(func(s uint64) bool { return s != 1<<c.Log2 }).Draw(rt, "psize")
+				p.Size = rapid.SampledFrom([]uint64{0, 1 << 10, 1 << 12, 1 << 13, 1 << 14, 1 << 16, 1 << 18}).
+					Filter(func(s uint64) bool { return s != psz }).Draw(rt, "psize")
 			}
+		case sizeless && rapid.Bool().Draw(rt, "nosize"):
+			p.Odd, p.Size = "size", 0
 		}
+		if invalid && rapid.IntRange(0, 2).Draw(rt, "inv") == 0 {
+			p.Invalid = true
+		}
+		isPre[s], isInvalid[s] = true, p.Invalid
 		c.Pre = append(c.Pre, p)
 	}
+	// the request stream stays on pages whose handling is documented: pages not
+	// in the table (auto-allocated) and Valid pre-inserted pages
+	var askable []int
+	for s := 0; s < procs*len(vpns); s++ {
+		if !isInvalid[s] {
+			askable = append(askable, s)
+		}
+	}
+	if len(askable) == 0 { // every page of the pool is a pre-inserted invalid one
+		c.Pre[0].Invalid = false
+		askable = append(askable, slots[0])
+	}
 	var last c27Req
+	newPages := map[int]bool{}
 	for i := 0; i < nReq; i++ {
 		r := c27Req{}
 		if i > 0 && rapid.IntRange(0, 9).Draw(rt, "same") < 4 {
 			r.PID, r.VPN = last.PID, last.VPN // the same page again, usually back to back
 		} else {
-			r.PID = uint32(rapid.IntRange(1, procs).Draw(rt, "pid"))
-			r.VPN = vpns[rapid.IntRange(0, len(vpns)-1).Draw(rt, "vi")]
+			s := askable[rapid.IntRange(0, len(askable)-1).Draw(rt, "page")]
+			r.PID, r.VPN = uint32(s%procs)+1, vpns[s/procs]
+			if !isPre[s] {
+				newPages[s] = true
+			}
 		}
 		if rapid.Bool().Draw(rt, "unal") {
-			r.Off = rapid.Uint64Range(0, 1<<c.Log2-1).Draw(rt, "off")
+			r.Off = rapid.Uint64Range(0, psz-1).Draw(rt, "off")
 		}
 		if rapid.IntRange(0, 9).Draw(rt, "gapk") >= 7 {
 			r.Gap = rapid.IntRange(1, 12).Draw(rt, "gap")
@@ -496,19 +585,44 @@ func genC27(rt *rapid.T) c27Case {
 		last = r
 		c.Reqs = append(c.Reqs, r)
 	}
+	// pre-inserted frames land where the allocation cursor sweeps: it ends at
+	// (#new pages + #frames stepped over), so most frames are drawn below that
+	// and a quarter of the cases spread them up to 10 frames further. A quarter
+	// of the cases let pre-inserted pages share frames.
+	top := uint64(len(newPages) + nPre + 1)
+	if rapid.IntRange(0, 3).Draw(rt, "spread") == 0 {
+		top = uint64(nPre + 10)
+	}
+	var frames []uint64
+	if rapid.IntRange(0, 3).Draw(rt, "sharecase") == 0 {
+		frames = rapid.SliceOfN(rapid.Uint64Range(0, top), nPre, nPre).Draw(rt, "frames")
+		for i := 1; i < nPre; i++ {
+			if rapid.IntRange(0, 2).Draw(rt, "share") == 0 {
+				frames[i] = frames[rapid.IntRange(0, i-1).Draw(rt, "with")]
+			}
+		}
+	} else {
+		frames = rapid.SliceOfNDistinct(rapid.Uint64Range(0, top), nPre, nPre, rapid.ID[uint64]).Draw(rt, "frames")
+	}
+	for i := range c.Pre {
+		c.Pre[i].Frame = frames[i]
+	}
 	return c
 }
 
-const c27Rule = "MMU built with AutoPageAllocation, page 4K/16K/64K, latency 0-5, 1-8 walks in flight, port buffers 1-4, shared page table pre-populated with 0-8 pages whose frames are distinct, page-size aligned and of the table's page size and lie in the range the allocation cursor sweeps (frame numbers 0..n+10); " +
-	"1 in 6 cases additionally makes some pre-inserted pages unaligned or of another size (labelled, overlap with those not asserted); stream of 1-40 TranslationReqs (1-3 processes, pool of 1-8 VPNs incl. the top of the address space, aligned or unaligned VAddr, 40% repeat the previous page, gaps 0-12 cycles). " +
-	"Oracle: every request answered once (RspTo, Dst); all responses for one (pid, vpage) carry the identical page and the table's Find returns it; an auto-allocated page has that pid, the aligned vaddr, Valid and the table's page size; pre-inserted pages are answered unchanged; each auto-allocated page's [PAddr, PAddr+PageSize) is disjoint from every other page's range. " +
+const c27Rule = "MMU built with AutoPageAllocation, page 4K/16K/64K, latency 0-5, 1-8 walks in flight, port buffers 1-4, shared page table pre-populated with 0-8 pages (1-3 processes) whose frames are page-size aligned and of the table's page size and lie where the allocation cursor sweeps (frame numbers 0..#new pages+#pre-inserted+1; a quarter of the cases 0..n+10); " +
+	"in half of the cases a third of the pre-inserted entries are inserted with Valid=false (they keep their frame); in a quarter of the cases pre-inserted entries may share frames (incl. a not-Valid entry of the lowest PID with a Valid entry of a higher PID); 1 in 6 cases leaves PageSize unset (0) on some entries; " +
+	"1 in 6 cases additionally makes some pre-inserted pages unaligned or of another size (labelled; overlap with unaligned or oversized ones not asserted); stream of 1-40 TranslationReqs for pages not in the table and for Valid pre-inserted pages (never for a not-Valid entry), pool of 1-8 VPNs incl. the top of the address space, aligned or unaligned VAddr, 40% repeat the previous page, gaps 0-12 cycles. " +
+	"Oracle: every request answered once (RspTo, Dst); all responses for one (pid, vpage) carry the identical page and the table's Find returns it; an auto-allocated page has that pid, the aligned vaddr, Valid and the table's page size; pre-inserted pages are answered unchanged; each auto-allocated page's [PAddr, PAddr+PageSize) is disjoint from every other page's range, Valid or not (an aligned pre-inserted entry whose PageSize field is 0 or smaller than the table's page size is held to its whole frame). " +
 	"Non-trivial: a well-formed pre-inserted frame lies below an auto-allocated one (the cursor stepped over it) and a second request for a new page reached the MMU before the first answer for it left (port hook times)"
 
 func TestC27AutoAlloc(t *testing.T) {
 	s := kit.Begin(t, "C27", "autoalloc", c27Rule)
 	defer s.End()
-	s.Assume("pre-inserted pages have distinct frames (frames shared between processes make ReverseLookup order-dependent: C26/C03, not asserted here); determinism of the chosen frames is not asserted")
-	s.Assume("pre-inserted pages that are unaligned or of another size are generated but overlap with them is only labelled: the allocator probes ReverseLookup by exact frame address and the legality of such tables is undocumented")
+	s.Assume("a page-table entry occupies its physical range whether or not its Valid flag is set (the property speaks of every page in the table); what the MMU answers to a request for a not-Valid entry is not documented, so the request stream never names one")
+	s.Assume("pre-inserted pages may share frames; which of the sharing pages ReverseLookup reports, and determinism of the chosen frames, is C26/C03 and not asserted here")
+	s.Assume("pre-inserted pages that are unaligned or larger than the table's page size are generated but overlap with them is only labelled: the allocator probes ReverseLookup by exact frame address and the legality of such tables is undocumented")
+	s.Assume("an aligned pre-inserted entry whose PageSize field is unset (0, as in the repository's gmmu tests) or smaller than the table's page size is held to occupy the whole frame at its PAddr, because every component translates with the table/spec page size and none reads Page.PageSize; violations of this reading carry their own signature autoalloc-alias:pre-inserted-undersized")
 
 	run := func(f kit.Failer, c c27Case) {
 		r := execC27(c)
